@@ -98,7 +98,7 @@ func c20(c *Ctx) {
 			cv := conv[0].(*ssa.Convert)
 			is := func(v ssa.Value) bool { return v == cv.X }
 			c.MustFact(conv[0], "not-negative", func(fc Fact) bool {
-				return fc.Kind == "cmp" && fc.Op == token.GEQ && is(fc.X) && isZeroConst(strip(fc.Y))
+				return fc.Kind == "cmp" && (fc.Op == token.GEQ || fc.Op == token.GTR) && is(fc.X) && isZeroConst(strip(fc.Y))
 			})
 			c.MustFact(conv[0], "below-MaxInt64 (saturating)", func(fc Fact) bool {
 				if fc.Kind != "cmp" || fc.Op != token.LSS || !is(fc.X) {
